@@ -65,6 +65,10 @@ fn has_dup_keys(v: &sonic_rs::Value) -> bool {
     else if let Some(a) = v.as_array() { a.iter().any(has_dup_keys) } else { false }
 }
 impl Arb for sonic_rs::Number { fn arb(rng: &mut Rng) -> Self { loop { let i = rng.next(); let (lit, _) = crate::nm::gen_literal(rng, i); if let Ok(n) = sonic_rs::from_slice::<sonic_rs::Number>(&lit) { return n; } } } }
+// serde_json's own DOM as a member of the family: it goes through deserialize_any on both routes
+#[derive(Serialize, Deserialize, PartialEq, Debug, Clone)]
+pub struct SjValue(pub serde_json::Value);
+impl Arb for SjValue { fn arb(rng: &mut Rng) -> Self { loop { let d = { let mut g = crate::jt::Gen { rng }; g.doc() }; if let Ok(v) = serde_json::from_slice::<serde_json::Value>(&d) { return SjValue(v); } } } }
 impl Arb for SWithValue { fn arb(rng: &mut Rng) -> Self {
     use sonic_rs::JsonValueTrait;
     let arr = loop { let v = sonic_rs::Value::arb(rng); if v.is_array() { break v.into_array().unwrap(); } if rng.chance(1, 3) { break sonic_rs::Array::new(); } };
@@ -234,6 +238,7 @@ pub fn registry() -> Vec<TyEntry> {
         TyEntry { name: "dom_value", de: de_none, conv: Some(conv::<sonic_rs::Value>), gen: None },
         TyEntry { name: "dom_struct_with_value", de: de_none, conv: Some(conv::<SWithValue>), gen: None },
         TyEntry { name: "dom_vec_value", de: de_none, conv: Some(conv::<Vec<sonic_rs::Value>>), gen: None },
+        TyEntry { name: "dom_serde_json_value", de: de_none, conv: Some(conv::<SjValue>), gen: None },
         TyEntry { name: "dom_rawnumber", de: de_none, conv: Some(conv::<sonic_rs::RawNumber>), gen: None },
         TyEntry { name: "dom_struct_raw", de: de_none, conv: Some(conv::<SRaw>), gen: None },
         TyEntry { name: "dom_number", de: de_none, conv: Some(conv::<Vec<sonic_rs::Number>>), gen: None },
